@@ -23,7 +23,10 @@ func init() {
 	if err != nil {
 		panic(err)
 	}
-	decMode, err = cbor.DecOptions{}.DecMode()
+	// The decoder mode is the caller's: the library's consumer configures a generous nesting limit (the CBOR
+	// library's default of 32 levels is reached by values nested some seven containers deep, which re-attachment
+	// can build); a register refused only because of the caller's own limit says nothing about the library.
+	decMode, err = cbor.DecOptions{MaxNestedLevels: 512}.DecMode()
 	if err != nil {
 		panic(err)
 	}
